@@ -321,7 +321,8 @@ func clip(s string, n int) string {
 func (i *interpreter) vpOpt(name string, v int) {
 	switch name {
 	case "maporder":
-		i.p.mapOrder = v != 0
+		i.p.mapOrder = v == 1
+		i.p.globalOrder = v == 2
 	case "schedall":
 		i.p.schedAll = v != 0
 	case "preempt":
@@ -371,7 +372,7 @@ func (i *interpreter) hashUF(name string, bytes []value) []value {
 		if prev == app {
 			continue
 		}
-		ax := st.Implies(st.Eq(prev, app), st.Eq(prev.args[0], arg))
+		ax := st.Implies(st.RawEq(prev, app), st.Eq(prev.args[0], arg))
 		i.p.addPC(ax)
 	}
 	// different lengths / names never collide either
@@ -380,7 +381,7 @@ func (i *interpreter) hashUF(name string, bytes []value) []value {
 			continue
 		}
 		for _, prev := range apps {
-			ax := st.Not(st.Eq(prev, app))
+			ax := st.Not(st.RawEq(prev, app))
 			i.p.addPC(ax)
 		}
 	}
@@ -392,6 +393,9 @@ func (i *interpreter) hashUF(name string, bytes []value) []value {
 	}
 	if !found {
 		i.p.ufApps[fname] = append(i.p.ufApps[fname], app)
+		// no digest is the all-zero value (code uses it as "unset")
+		i.p.addPC(st.Not(st.RawEq(app, st.BVConst(0, 256))))
+		i.p.learn(st.Not(st.Eq(app, st.BVConst(0, 256))))
 	}
 	return i.splitBytes(app, 32)
 }
